@@ -78,6 +78,11 @@ class DumperBase(DataStreamProcessor):
     def process_resources(self, resources):
         self.initialize()
 
+        # totals describe this dump only, whatever an earlier dumper left in the descriptor
+        for total in (self.datapackage_rowcount, self.datapackage_bytes):
+            if DumperBase.get_attr(self.datapackage.descriptor, total) is not None:
+                DumperBase.set_attr(self.datapackage.descriptor, total, 0)
+
         resource: ResourceWrapper = None
         for resource in resources:
             ret = self.process_resource(
